@@ -358,5 +358,11 @@ def jobs(tier, seed):
         if j.name in ("C08_B32_S3", "C08_B32_S5", "C08_B32_S7"):
             keep = [c for c in j.checks if "by-value" in c["name"]]
             out.append(Job(j.name.replace("C08_", "C11_byval_"), j.source, keep, flags=j.flags, unwind=j.unwind, compare_logs=j.compare_logs, native=j.want_native))
+    # callbacks passed as arguments keep denoting the callback that was passed, across nested invocations of another instance and
+    # in both thread-local-storage configurations of the bundled backends: kernels and oracles of C12
+    from specs import C12
+    for j in C12.jobs("quick", seed):
+        if j.name in ("C12_noop_nested", "C12_noop_etls_nested", "C12_dylib_nested", "C12_dylib_etls_nested"):
+            out.append(Job(j.name.replace("C12_", "C11_cbarg_"), j.source, j.checks, flags=j.flags, unwind=j.unwind, compare_logs=j.compare_logs, native=j.want_native))
     out.append(Job("C11_noop_static", NOOP_SRC, [dict(name="noop static call", fn=check_noop, unwind=300)], native=False))
     return out
